@@ -795,10 +795,17 @@ func quoteString(s string) string {
 	return string(append(q, '\''))
 }
 
+// Children returns the values in the order of their (sorted) keys: whatever
+// walks the tree meets them in the same order every time.
 func (n *MapLiteralNode) Children() []Node {
+	var keys = make([]string, 0, len(n.Items))
+	for k := range n.Items {
+		keys = append(keys, k)
+	}
+	sort.Strings(keys)
 	var nodes []Node
-	for _, v := range n.Items {
-		nodes = append(nodes, v)
+	for _, k := range keys {
+		nodes = append(nodes, n.Items[k])
 	}
 	return nodes
 }
